@@ -47,6 +47,8 @@ func ok6(a []byte) byte  { b := win(a); return b[1] + a[3] }
 func bad7(a []byte, c []byte) []byte { b := a[:2]; n := copy(a, c); if n > 0 { return b }; return nil }
 type holder struct{ raw []byte }
 func bad8(m *holder, n int) []byte { x := make([]byte, n); y := x[1:]; y[0] = 7; m.raw = x; return m.raw }
+func bad9(d []byte) byte { var xs [][]byte; xs = append(xs, d[1:]); d[1] = 9; return xs[0][0] }
+func ok9(d []byte) byte  { var xs [][]byte; xs = append(xs, d[1:]); xs = append(xs, d[2:]); return xs[0][0] + d[1] }
 func ok8(m *holder, n int) []byte  { x := make([]byte, n); x[1] = 7; m.raw = x; return m.raw }
 `
 
@@ -62,7 +64,7 @@ func selfTest() int {
 		fmt.Fprintln(os.Stderr, "go2lean selftest:", err)
 		return 2
 	}
-	funcs := []string{"bad1", "ok1", "bad2", "ok2", "bad3", "ok3", "bad4", "callee", "bad5", "ok5", "win", "bad6", "ok6", "bad7", "bad8", "ok8"}
+	funcs := []string{"bad1", "ok1", "bad2", "ok2", "bad3", "ok3", "bad4", "callee", "bad5", "ok5", "win", "bad6", "ok6", "bad7", "bad8", "ok8", "bad9", "ok9"}
 	var w strings.Builder
 	var untranslated []string
 	translatePackage(dir, group{pkg: "t", stubs: "", funcs: funcs}, &w, &untranslated)
